@@ -254,4 +254,33 @@ def HistCountNeInf (P : Params) (n : Str) (samples : List OSample) : Prop :=
     (sc.name = n ++ cs!"_count" ∨ sc.name = n ++ cs!"_gcount") ∧ InHistGroup n g sb.ts sc ∧
     sb.value = some v ∧ sc.value = some c ∧ P.eq v c = false ∧ GroupEnds P n g sb.ts post
 
+/-! ### the same two rules on the document's lines
+
+A sample line reaches the list `_check_histogram` receives unless it repeats a series (name and label set) already
+seen in its group at an unchanged timestamp — then it is dropped.  The document-level rules therefore ask that the two
+offending bucket lines are not such repeats: their series differ from each other and from every earlier sample line of
+the family block. -/
+
+/-- the series of a sample: its name and label set -/
+def seriesOf (s : OSample) : Str × Labels := (s.name, sortByKey (s.labels.getD []))
+
+/-- `# TYPE n t` (histogram or gaugehistogram), lines of that family, then two consecutive bucket lines `s1`, `s2` that
+are new series, related by `bad` -/
+def HistPairDoc (ls : List Line) (bad : Str → OSample → OSample → Prop) : Prop :=
+  ∃ pre n t mid s1 s2 post, ls = pre ++ .metadata cs!"TYPE" n t :: (mid ++ [smp s1, smp s2] ++ post) ∧
+    (t = cs!"histogram" ∨ t = cs!"gaugehistogram") ∧ (∀ l ∈ mid, InFam n t l) ∧
+    s1.name ∈ familyNames n t ∧ s2.name ∈ familyNames n t ∧ seriesOf s1 ≠ seriesOf s2 ∧
+    (∀ nh s, Line.sample nh (.ok s) ∈ mid → seriesOf s ≠ seriesOf s1 ∧ seriesOf s ≠ seriesOf s2) ∧
+    bad n s1 s2
+
+/-- consecutive bucket lines of one group with `b2 ≤ b1`, in the document -/
+def HistBoundsNotIncreasingDoc (P : Params) (ls : List Line) : Prop :=
+  HistPairDoc ls (fun n s1 s2 => ∃ b1 b2 g1 g2, IsBucket P n s1 b1 g1 ∧ IsBucket P n s2 b2 g2 ∧
+    SameHistGroup P g1 g2 s1.ts s2.ts ∧ P.le (.flt b2) (.flt b1) = true)
+
+/-- consecutive bucket lines of one group with a decreasing count, in the document -/
+def HistCountsNotCumulativeDoc (P : Params) (ls : List Line) : Prop :=
+  HistPairDoc ls (fun n s1 s2 => ∃ b1 b2 g1 g2 v1 v2, IsBucket P n s1 b1 g1 ∧ IsBucket P n s2 b2 g2 ∧
+    SameHistGroup P g1 g2 s1.ts s2.ts ∧ s1.value = some v1 ∧ s2.value = some v2 ∧ P.lt v2 v1 = true)
+
 end PromVerif.Spec.OMRules
